@@ -22,7 +22,10 @@ def uncps(a):
 # ---------------------------------------------------------------- values
 
 class Opaque:
-    """marker for an opaque object() inside a target"""
+    """an opaque (non-JSON) object inside a target"""
+
+    def __repr__(self):
+        return '<opaque>'
 
 
 def enc(v):
